@@ -63,6 +63,8 @@ func c18(c *Ctx) {
 	r.Rule("R18.W", "every big.Int.Bytes() in the SRP code is left-padded to 256 bytes before it is hashed or returned; B is padded before hashing", 6)
 	r.Rule("R18.V", "validation dominates use; its comparisons are 0<B, B<p, 248<=len(B)<=256; empty password returns first and maps to InputCheckPasswordEmpty", 7)
 	r.Rule("R18.N", "t.Add(t, p) is executed exactly on the t < 0 edge", 1)
+	r.Rule("R18.B", "no function of package srp writes through a []byte parameter (salts, the password, B come from the caller's objects and are used again): no element store, copy, append onto it, nor a callee that does", 8)
+	c.paramsUntouched("R18.B", load.SrpPkg, nil)
 	r.Rule("R18.R", "the SRP ephemeral is drawn from crypto/rand", 1)
 	r.Rule("R18.E", "SRP formulas: the expressions extracted for A and M1 (through x, v, k, k_v, t, u, s_a, k_a) are the ones of the SRP document, operand for operand", 2)
 	if c.verifySummaries("R18.E") {
